@@ -16,7 +16,9 @@ if [ "${SKIP_TESTS:-0}" != 1 ]; then
     case "$res" in *"passed=44 failed=0 builderror=0"*) ;; *) echo "repo test suite does not pass with this patch: not a valid seeded change"; exit 3;; esac
 fi
 git -C /repo apply "$patch" || { echo "patch does not apply to /repo"; exit 2; }
-trap 'git -C /repo checkout -q -- .' EXIT
+# evidence written while a patch is applied describes the patched tree: keep the clean-tree files
+evbak=$(mktemp -d /tmp/evbak.XXXXXX); cp -a /verif/evidence/. "$evbak"/ 2>/dev/null
+trap 'git -C /repo checkout -q -- .; rm -rf /verif/evidence; mkdir -p /verif/evidence; cp -a "$evbak"/. /verif/evidence/; rm -rf "$evbak"' EXIT
 for id in "$@"; do
     out=$(cd /verif && ./check $id --tier $tier 2>&1); rc=$?
     echo "$id rc=$rc $(echo "$out" | grep -E '^(VIOLATION|MACHINERY)' | head -3 | cut -c1-160 | tr '\n' ';')"
